@@ -196,6 +196,10 @@ impl Client {
                     if let Some(search) = current_search.take() {
                         search.wait_cancel();
                     }
+
+                    // A new game must not see the search memory (and the position
+                    // history used for repetition detection) of the previous one
+                    previous_artifact = None;
                 }
                 Some((&"quit", _)) => break,
                 Some((&".state", _)) => {
